@@ -755,6 +755,9 @@ func (self *LockDB) checkTimeOut(waiter chan struct{}) {
 			checkTimeoutTime++
 		}
 
+		if vfSingleRound {
+			return
+		}
 		<-waiter
 	}
 }
@@ -1017,6 +1020,9 @@ func (self *LockDB) checkExpried(waiter chan struct{}) {
 			checkExpriedTime++
 		}
 
+		if vfSingleRound {
+			return
+		}
 		<-waiter
 	}
 }
